@@ -4,6 +4,7 @@ from ..r_query import rule_eq_ladders, rule_primitive_plumbing, rule_constructor
 from ..r_rings import rule_ring_marks
 from ..r_readers import rule_raise_family, rule_implicit_raises, rule_tokenizer_fsm, DAYLIGHT
 from ..r_hygiene import rule_hygiene as _rule_hygiene
+from ..r_rings import rule_ring_mark_is_bool as _rule_mark_bool
 from ..r_readers import rule_tokenizer_rejections as _rule_tok_rej
 from ..r_codebooks import rule_cx_radical_lists as _rule_cxr
 from ..r_rings import rule_hybridization_table as _rule_hyb
@@ -29,6 +30,7 @@ def run(ck, repo):
     rule_implicit_raises(ck, repo, 'C08.D3-implicit-raises', ValueError)
     rule_tokenizer_fsm(ck, repo, 'C08.D3-fsm')
     _rule_hygiene(ck, repo, 'C08.H-dataflow-hygiene', 'C08')
+    _rule_mark_bool(ck, repo, 'C08.D4-ring-mark-bool')
     _rule_tok_rej(ck, repo, 'C08.D3-tokenizer-rejections')
     _rule_cxr(ck, repo, 'C08.D2-cx-radical-lists', ['chython.files.daylight.smiles', 'chython.files.daylight.smarts'])
     _rule_hyb(ck, repo, 'C08.D4-hybridization')
